@@ -1203,13 +1203,16 @@ def strategies(kind):
         def bounded_loop(draw, depth=0):
             v = draw(slot)
             k = draw(st.integers(0, 4))
-            body = draw(nlf)
+            body = _retarget(draw(nlf), v)     # the body does not assign the counter: the loop terminates
             if depth == 0 and draw(st.integers(0, 4)) == 0:
                 w = draw(slot)
                 inner = ['seq', ['asg', w, ['n', 0]], draw(bounded_loop(depth=1))]
                 body = ['seq', body, inner]
             body = ['seq', body, ['asg', v, ['+', ['v', v], ['n', 1]]]]
-            return ['while', ['!=', ['v', v], ['n', k]], ['true'], body]
+            loop = ['while', ['!=', ['v', v], ['n', k]], ['true'], body]
+            if draw(st.integers(0, 7)) != 3:
+                loop = ['seq', ['asg', v, ['n', draw(st.integers(0, k))]], loop]
+            return loop
 
         @st.composite
         def sem(draw):
@@ -1273,6 +1276,19 @@ def strategies(kind):
             return {'kind': 'hvcg', 'com': com, 'pre': pre, 'post': post, 'sseed': draw(sseed)}
         return hv()
     raise ValueError(kind)
+
+
+def _retarget(k, v):
+    """Assignments to slot v go to the next slot instead."""
+    if k[0] == 'asg':
+        return ['asg', (k[1] + 1) % NSLOTS if k[1] == v else k[1], k[2]]
+    if k[0] == 'seq':
+        return ['seq', _retarget(k[1], v), _retarget(k[2], v)]
+    if k[0] == 'if':
+        return ['if', k[1], _retarget(k[2], v), _retarget(k[3], v)]
+    if k[0] == 'while':
+        return ['while', k[1], k[2], _retarget(k[3], v)]
+    return k
 
 
 def _node(t, path):
